@@ -28,28 +28,30 @@ import (
 )
 
 type fwdCfg struct {
-	Name           string        `json:"name"`
-	BasicAuth      string        `json:"basicAuth"` // user:pass
-	Localhost      string        `json:"localhost"` // deny | allow | direct
-	Deny           []string      `json:"deny"`
-	Direct         []string      `json:"direct"`
-	MITMDomains    []string      `json:"mitmDomains"`
-	TimeFrame      string        `json:"timeFrame"` // "" | in | out
+	Name        string   `json:"name"`
+	BasicAuth   string   `json:"basicAuth"` // user:pass
+	Localhost   string   `json:"localhost"` // deny | allow | direct
+	Deny        []string `json:"deny"`
+	Direct      []string `json:"direct"`
+	MITMDomains []string `json:"mitmDomains"`
+	TimeFrame   string   `json:"timeFrame"` // "" | in | out
+	// Kerberos: authentication towards the upstream proxy by a (stub) Kerberos adapter
+	Kerberos bool `json:"kerberos"`
 	// Frames: the entries themselves (TimeFrame.tla schedules); used instead of TimeFrame when set
-	Frames []ruleset.TimeFrameEntry `json:"-"`
-	Upstream       string        `json:"upstream"`  // proxy URL
-	PAC            string        `json:"pac"`       // script
-	Creds          []string      `json:"creds"`     // user:pass@host:port
-	ConnectTo      []string      `json:"connectTo"` // src_host:src_port:dst_host:dst_port
-	MITM           bool          `json:"mitm"`
-	ReqHeaders     []string      `json:"reqHeaders"`
-	ResHeaders     []string      `json:"resHeaders"`
-	ConHeaders     []string      `json:"conHeaders"`
-	Handler        bool          `json:"handler"` // TestingHTTPHandler variant
-	ProxyProto     bool          `json:"proxyProto"`
-	TLS            bool          `json:"tls"`
-	ConnectTimeout time.Duration `json:"-"`       // --connect-timeout (0 = default)
-	LogHTTP        string        `json:"loghttp"` // --log-http mode of the proxy ("" = default)
+	Frames         []ruleset.TimeFrameEntry `json:"-"`
+	Upstream       string                   `json:"upstream"`  // proxy URL
+	PAC            string                   `json:"pac"`       // script
+	Creds          []string                 `json:"creds"`     // user:pass@host:port
+	ConnectTo      []string                 `json:"connectTo"` // src_host:src_port:dst_host:dst_port
+	MITM           bool                     `json:"mitm"`
+	ReqHeaders     []string                 `json:"reqHeaders"`
+	ResHeaders     []string                 `json:"resHeaders"`
+	ConHeaders     []string                 `json:"conHeaders"`
+	Handler        bool                     `json:"handler"` // TestingHTTPHandler variant
+	ProxyProto     bool                     `json:"proxyProto"`
+	TLS            bool                     `json:"tls"`
+	ConnectTimeout time.Duration            `json:"-"`       // --connect-timeout (0 = default)
+	LogHTTP        string                   `json:"loghttp"` // --log-http mode of the proxy ("" = default)
 
 	IdleTimeout       time.Duration `json:"-"`
 	ReadHeaderTimeout time.Duration `json:"-"`
@@ -377,7 +379,11 @@ func startFwd(c fwdCfg) (*fwd, error) {
 	dcfg.PromRegistry, dcfg.PromNamespace = f.reg, "vh" // the dialer's gauges are read from the proxy's registry
 	rt.DialContext = forwarder.VerifDialer(&dcfg, f.dial).DialContext
 
-	p, err := forwarder.NewHTTPProxy(cfg, pr, cm, rt, flog.NopLogger, nil)
+	var krb forwarder.KerberosAdapter
+	if c.Kerberos {
+		krb = stubKerberos{}
+	}
+	p, err := forwarder.NewHTTPProxy(cfg, pr, cm, rt, flog.NopLogger, krb)
 	if err != nil {
 		return nil, err
 	}
@@ -481,4 +487,17 @@ func workDir() string {
 		return d
 	}
 	return "/var/tmp"
+}
+
+// stubKerberos: a Kerberos adapter that authenticates towards the upstream proxy with a fixed token.
+type stubKerberos struct{}
+
+func (stubKerberos) ConnectToKDC() error                         { return nil }
+func (stubKerberos) GetSPNForHost(string) (string, error)        { return "HTTP/stub", nil }
+func (stubKerberos) GetSPNEGOHeaderValue(string) (string, error) { return "Negotiate c3R1Yg==", nil }
+func (stubKerberos) GetConfig() *forwarder.KerberosConfig {
+	return &forwarder.KerberosConfig{Enabled: true, AuthUpstreamProxy: true}
+}
+func (stubKerberos) GetProxyAuthHeader(context.Context, *url.URL, string) (http.Header, error) {
+	return http.Header{"Proxy-Authorization": {"Negotiate c3R1Yg=="}}, nil
 }
